@@ -294,6 +294,47 @@ pub fn run_generic(prop: &'static str, tier: Tier, tree: bool, spans: bool) -> i
             stats.samples.push(json!({"document": doc.show(), "default_spelling": text, "choice_points": base.points.len(), "spellings_in_ball": b.len()}));
         }
     }
+    // layout sweep: every expressible namespace layout of 1-3 elements in its default spelling (an independent
+    // renderer, not xot's serialiser), parsed by parse and parse_fragment
+    if tree {
+        use crate::nsscope::*;
+        let sp = SPEC_TOTAL;
+        let red = tier.pick(small_specs(), reduced_specs());
+        let r = red.len() as u64;
+        let lt = sp + sp * sp + 2 * r * r * r;
+        let s = par_range(&ctx, lt, |i, st| {
+            let t = if i < sp {
+                layout_tree(0, &[spec_from(i)])
+            } else if i < sp + sp * sp {
+                let j = i - sp;
+                layout_tree(1, &[spec_from(j / sp), spec_from(j % sp)])
+            } else {
+                let j = i - sp - sp * sp;
+                let shape = if j < r * r * r { 2 } else { 3 };
+                let j = j % (r * r * r);
+                layout_tree(shape, &[red[(j / (r * r)) as usize], red[((j / r) % r) as usize], red[(j % r) as usize]])
+            };
+            let doc = A::doc(vec![t]);
+            let Some(text) = crate::xmlwrite::render_default(&doc) else { return };
+            st.bump("layouts_rendered");
+            for frag in [false, true] {
+                let mut xot = Xot::new();
+                st.evals += 1;
+                let r = catch(|| if frag { xot.parse_fragment(&text) } else { xot.parse(&text) });
+                match r {
+                    Ok(Ok(n)) => {
+                        let got = read(&xot, n);
+                        if let Some(d) = diff_class(&norm(&doc), &norm(&got)) {
+                            st.fail(&Case { doc: doc.clone(), deviations: vec![] }, Fail::new(format!("layout-tree-differs|{}|{}", d, if frag { "parse_fragment" } else { "parse" }), format!("{:?} should denote {} but parsed as {}", text, doc.show(), got.show())));
+                        }
+                    }
+                    other => st.fail(&Case { doc: doc.clone(), deviations: vec![] }, Fail::new(format!("layout-rejected|{}", if frag { "parse_fragment" } else { "parse" }), format!("{:?}: {:?}", text, other.map(|r| r.map(|_| ())))),),
+                }
+            }
+        });
+        total_cases += s.counters.get("layouts_rendered").copied().unwrap_or(0);
+        stats = stats.merge(s);
+    }
     // differential clause: parse_fragment(t) == children of parse("<w>" + t + "</w>")
     if tree {
         let frags = ["x<a/>y", "<a/><b/>", "<!--c-->t<?pi d?>", "a&amp;b<![CDATA[<]]>c", "<p:a xmlns:p='urn:x' p:k='1'>t</p:a> ", "\r\nx\r", ""];
@@ -324,7 +365,7 @@ pub fn run_generic(prop: &'static str, tier: Tier, tree: bool, spans: bool) -> i
     let mut cov = json!({
         "evaluations": stats.evals,
         "distinct_nontrivial": total_cases,
-        "rule": format!("{} abstract documents (sharp characters in text and attribute values, structure with comments / PIs / top-level items, namespace layouts with shadowing, undeclaration, synonymous prefixes and a URI containing '&', xml:id / xml:space) x every spelling with at most {} deviations (3 for the small documents) from the default spelling over the renderer's choice points (character: literal / entity / decimal / hex / CDATA; line ends LF / CR / CRLF; attribute white space; quote style; in-tag white space; declaration / attribute interleaving; prefix choice; empty-element form; prolog; top-level white space; PI separator; xml:id padding; entry point parse / parse_with_span_info / parse_fragment / parse_bytes as UTF-8 +- BOM, UTF-16LE/BE, declared ISO-8859-1 / windows-1252); distinct = number of deviation sets (each is a different text or entry point)", docs.len(), k),
+        "rule": format!("{} abstract documents (sharp characters in text and attribute values, structure with comments / PIs / top-level items, namespace layouts with shadowing, undeclaration, synonymous prefixes and a URI containing '&', xml:id / xml:space) x every spelling with at most {} deviations (3 for the small documents) from the default spelling over the renderer's choice points (character: literal / entity / decimal / hex / CDATA; line ends LF / CR / CRLF; attribute white space; quote style; in-tag white space; declaration / attribute interleaving; prefix choice; empty-element form; prolog; top-level white space; PI separator; xml:id padding; entry point parse / parse_with_span_info / parse_fragment / parse_bytes as UTF-8 +- BOM, UTF-16LE/BE, declared ISO-8859-1 / windows-1252); distinct = number of deviation sets (each is a different text or entry point) plus the layouts of the layout sweep (every expressible namespace layout of 1-3 elements in the default spelling of an independent renderer, through parse and parse_fragment)", docs.len(), k),
         "documents": docs.len(),
         "deviation_levels": {"0": per_level[0], "1": per_level[1], "2": per_level[2], "3": per_level[3], "4": per_level[4]},
     });
